@@ -97,6 +97,42 @@ theorem ctxLookup_none (stack : List Dict) (n : String) (h : ∀ d ∈ stack, dg
     simp only [ctxLookup, h d (by simp)]
     exact ih (fun e he => h e (by simp [he]))
 
+/-- the default of a parameter that may still be set is the one the code zips it with
+(the source default, or `Required` from the padding) -/
+theorem default_param (s : Sig) (hwf : s.wf = true) (nPos : Nat) (n : String) (d : Val)
+    (h : (n, d) ∈ (s.argNames.drop (1 + nPos)).zip ((paddedDefaults s).drop (1 + nPos))) :
+    dget (baseKwargs s nPos) n = some d := by
+  obtain ⟨hn, hk, hdisj⟩ := wf_parts s hwf
+  have hmem : n ∈ s.argNames := by
+    have := keys_zip_subset _ _ n (List.mem_map.mpr ⟨(n, d), h, rfl⟩)
+    exact List.mem_of_mem_drop this
+  have hnk : n ∉ keys s.kwOnly := fun hc => hdisj n hc hmem
+  have hz : (keys ((s.argNames.drop (1 + nPos)).zip ((paddedDefaults s).drop (1 + nPos)))).Nodup :=
+    nodup_keys_zip _ _ (List.Nodup.sublist (List.drop_sublist _ _) hn)
+  unfold baseKwargs dictOf
+  rw [dget_dupdate, dgetLast_none_of_not_mem _ _ hnk]
+  simp only
+  rw [dget_dupdate, dgetLast_eq_dget _ hz, dget_of_mem _ hz _ _ h]
+
+/-- the default of a keyword-only argument is the decorator's -/
+theorem default_kwonly (s : Sig) (hwf : s.wf = true) (nPos : Nat) (k : String) (d : Val)
+    (h : (k, d) ∈ s.kwOnly) : dget (baseKwargs s nPos) k = some d := by
+  obtain ⟨hn, hk, hdisj⟩ := wf_parts s hwf
+  unfold baseKwargs
+  rw [dget_dupdate, dgetLast_eq_dget _ hk, dget_of_mem _ hk _ _ h]
+
+
+/-- **Passing styles agree.**  For a name that may still be set and is not given
+otherwise, passing `v` as an explicit keyword argument and setting it in the
+innermost enclosing context hand the same value to the method. -/
+theorem passing_styles_agree (s : Sig) (nPos : Nat) (kw : Dict) (stack : List Dict) (n : String) (v d : Val)
+    (hkw : dgetLast kw n = none) (hb : dget (baseKwargs s nPos) n = some d) :
+    dget (newKwargs s nPos ((n, v) :: kw) stack) n = some v ∧
+    dget (newKwargs s nPos kw ([(n, v)] :: stack)) n = some v := by
+  constructor
+  · rw [precedence]; simp [dgetLast, hkw]
+  · rw [precedence]; simp [dgetLast, hkw, hb, ctxLookup]
+
 /-! ## required arguments -/
 
 /-- **Rejected.**  A call is rejected with `TypeError` exactly when some argument is
